@@ -20,6 +20,24 @@ PROPS = {
         "assumptions": ["atoms written as a pool or classically negated are outside the theorems' pool_free premise "
                         "(known finding C18-pool)"],
     },
+    "C01": {"families": ["norm_none", "norm_preprocess", "cleanup_execute"], "oracle": "sem"},
+    "C02": {"families": ["unify_pairs", "unify_sequences"], "oracle": "sem"},
+    "C03": {"families": ["binding_body", "binding_head", "norm_inline", "cleanup_mappings", "dep_create_domain"], "oracle": "struct"},
+    "C04": {"families": ["unique_variables", "unique_names", "binding_body"], "oracle": "struct"},
+    "C05": {"families": ["norm_replace_old_aggregates", "norm_remove_bounds", "norm_expand_comparisons", "norm_unpool", "norm_preprocess", "norm_exline", "norm_inline", "norm_none"], "oracle": "sem"},
+    "C06": {"families": [], "oracle": "sem"},
+    "C07": {"families": ["unique_variables", "unique_names"], "oracle": "struct"},
+    "C17": {"families": [], "oracle": "struct", "quick_cap": 150},
+    "C20": {"families": ["dep_static", "dep_domains", "dep_create_domain", "dep_names", "dep_chain"], "oracle": "struct"},
+    "C08": {"families": ["cleanup_mappings", "cleanup_superseeded", "cleanup_apply", "cleanup_execute_core", "cleanup_execute"], "oracle": "sem"},
+    "C09": {"families": [], "oracle": "sem"},
+    "C10": {"families": [], "oracle": "sem"},
+    "C11": {"families": [], "oracle": "sem"},
+    "C12": {"families": [], "oracle": "sem"},
+    "C13": {"families": [], "oracle": "sem"},
+    "C14": {"families": [], "oracle": "sem"},
+    "C15": {"families": ["unify_pairs", "unify_unpool", "unify_sequences"], "oracle": "sem"},
+    "C16": {"families": [], "oracle": "sem"},
     "C19": {
         "families": ["verify_enable"],
         "oracle": "c19",
@@ -44,9 +62,14 @@ def oracle_check(prop, payload):
         return oracles.c18_oracle(payload["text"])
     if kind == "c19":
         return oracles.c19_check(payload)
-    if kind == "sem":
-        from . import asp_oracle, semprops
-        return asp_oracle.semantic_check(payload, rng=random.Random(semprops._h(payload["text"])))
+    if kind in ("sem", "struct") or payload.get("check"):
+        from . import semprops
+        if kind == "struct":
+            payload = dict(payload, check=semprops.STRUCT[prop][0])
+        elif kind == "sem":
+            payload = {k: v for k, v in payload.items() if k != "check"}
+        f, err = semprops._work(payload)
+        return f
     return None
 
 
@@ -55,6 +78,9 @@ def matches_finding(prop, payload, failure, finding):
     if m == "exact":
         return payload.get("text", "").strip() == finding["witness"].get("text", "").strip() and \
             all(payload.get(k) == v for k, v in finding["witness"].items() if k != "text")
+    if m == "exc_site":
+        return failure.get("kind") == "exception" and failure.get("exc") == finding.get("exc") and \
+            failure.get("site") == finding.get("exc_site")
     if m == "text":
         return _norm(payload.get("text", "")) == _norm(finding["witness"].get("text", ""))
     if m == "c18_unpool":
@@ -131,11 +157,23 @@ def oracle_cases(prop, tier, rng, inputs, fixed_only=True):
             yield {"text": i["text"], "origin": i["origin"]}
     elif kind == "c19":
         yield from c19_cases(tier, rng, inputs)
+    elif kind == "struct":
+        from . import semprops
+        for w in witnesses(prop):
+            yield dict({k: w[k] for k in ("text", "traits", "input", "output", "mode", "instances") if k in w},
+                       check=semprops.STRUCT[prop][0])
+        fixed = semprops.oracle_inputs(inputs) if fixed_only else inputs
+        pls = semprops.payloads(prop, fixed)
+        cap = PROPS[prop].get("quick_cap")
+        if tier != "thorough" and cap and len(pls) > cap:
+            step = (len(pls) + cap - 1) // cap
+            pls = pls[::step]
+        yield from pls
     elif kind == "sem":
         from . import semprops
         for w in witnesses(prop):
             yield {k: w[k] for k in ("text", "traits", "input", "output", "mode", "instances") if k in w}
-        fixed = [i for i in inputs if not i["origin"].startswith("gen:")] if fixed_only else inputs
+        fixed = semprops.oracle_inputs(inputs) if fixed_only else inputs
         yield from semprops.payloads(prop, fixed)
 
 
@@ -143,7 +181,7 @@ def run_oracle(prop, tier, rng, inputs, known):
     t0 = time.time()
     fails = []
     stats = {"evaluations": 0, "attributed_to_known_findings": 0, "failures": 0}
-    if PROPS[prop].get("oracle") == "sem":
+    if PROPS[prop].get("oracle") in ("sem", "struct"):
         from . import common, semprops
         allknown = common.load_known_findings().get("findings", [])
         pls = list(oracle_cases(prop, tier, rng, inputs))
@@ -202,11 +240,15 @@ def search(prop, tier, rng, inputs, fam_results, known):
     allknown = None
     from . import common as _c
     allknown = _c.load_known_findings().get("findings", [])
-    if kind == "sem":
+    if kind in ("sem", "struct"):
         from . import semprops
         gen = (pl for g in inp_mod.generated_iter(rng.randrange(1 << 30))
                for pl in semprops.payloads(prop, [g]))
-        cands = [pl for c in cands for pl in semprops.payloads(prop, [c])]
+        extra = []
+        for c in cands[:40]:
+            for m in inp_mod.sign_mutants(c["text"], rng, 25):
+                extra.append({"text": m, "origin": c["origin"] + "+sign-mutant"})
+        cands = [pl for c in cands + extra for pl in semprops.payloads(prop, [c])]
         stream = itertools.chain(cands, oracle_cases(prop, tier, rng, inputs, fixed_only=False), gen)
         while time.time() - t0 < budget:
             batch = list(itertools.islice(stream, 128))
